@@ -176,7 +176,9 @@ class LibsModel:
         if qual == 'collections.Counter':
             out = AV(ty='dict', counter=True, deps=d, fresh=True, elem=AV(ty='int', mono=Mono.atom('count')))
             if args:
-                out = out.w(keyelem=self.iter_item(interp, st, args[0], None, None), counted=args[0])
+                out = out.w(keyelem=self.iter_item(interp, st, args[0], None, None), counted=args[0], accum=True)
+            else:
+                out = out.w(empty_init=True)
             return out
         if qual == 'collections.defaultdict':
             fac = args[0] if args else None
@@ -559,6 +561,23 @@ class LibsModel:
             if name == 'add_edge':
                 interp.emit('graph_add_edge', node, graph=recv, u=args[0], v=args[1], attrs=dict(kwargs))
                 return const(None)
+            if name == 'add_nodes_from' and args:
+                el = self.iter_item(interp, st, args[0], None, None)
+                attrs = dict(kwargs)
+                key = el
+                if el is not None and el.ty == 'tuple' and el.elts is not None and len(el.elts) == 2 and el.elts[1].ty == 'dict':
+                    key = el.elts[0]
+                    attrs.update(el.elts[1].kw or {})
+                interp.emit('graph_add_node', node, graph=recv, key=key, attrs=attrs)
+                return const(None)
+            if name in ('add_edges_from', 'add_weighted_edges_from') and args:
+                el = self.iter_item(interp, st, args[0], None, None)
+                if el is not None and el.ty == 'tuple' and el.elts is not None and len(el.elts) >= 2:
+                    attrs = dict(kwargs)
+                    if len(el.elts) > 2 and el.elts[2].ty == 'dict':
+                        attrs.update(el.elts[2].kw or {})
+                    interp.emit('graph_add_edge', node, graph=recv, u=el.elts[0], v=el.elts[1], attrs=attrs)
+                return const(None)
             if name == 'copy':
                 return recv.w(fresh=True, copied=True)
             if name == 'remove_node':
@@ -778,7 +797,7 @@ class LibsModel:
         ty = it.ty
         if ty == 'ndarray':
             ax = it.axes[1:] if it.axes else None
-            out = it.only('geo', 'idx', 'mono', 'prov', 'store', 'dtype', 'taint', 'origin').w(ty='ndarray', axes=ax, view_of=it.store, deps=it.deps)
+            out = it.only('geo', 'idx', 'mono', 'prov', 'store', 'dtype', 'taint', 'origin', 'counts_of', 'unique_of', 'positional_slice').w(ty='ndarray', axes=ax, view_of=it.store, deps=it.deps)
             if it.colvals is not None and it.axes is not None and len(it.axes) == 2:
                 out = out.w(ty='tuple', elts=list(it.colvals), rowof=True)
             if ax == ():
@@ -810,7 +829,7 @@ class LibsModel:
                                         AV(ty='Row', cols=df.cols, deps=df.deps, store='fresh', frame_sorted_by=df.sorted_by)])
         if ty == 'DataFrameGroupBy':
             df = it.of
-            return AV(ty='tuple', elts=[AV(ty='int', idx=('ATOM',)), df.w(grouped=True)])
+            return AV(ty='tuple', elts=[AV(ty='int', idx=('ATOM',)), df.w(grouped=it.by or True)])
         if ty == 'file':
             return AV(ty='str')
         return None
